@@ -2799,21 +2799,13 @@ func (c *e1ctx) ruleRowLiteral(s *e1.Site) (string, bool) {
 							if !ok || st.Addr != ssa.Value(ea) {
 								continue
 							}
-							rs, ok := st.Val.(*ssa.Slice)
-							if !ok || rs.Low != nil || rs.High != nil {
-								return "", false
-							}
-							ra, ok := rs.X.(*ssa.Alloc)
-							if !ok {
-								return "", false
-							}
-							at, ok := ra.Type().(*types.Pointer).Elem().Underlying().(*types.Array)
+							n, ok := rowLiteralLen(c.p, st.Val, 0)
 							if !ok {
 								return "", false
 							}
 							rows++
-							if minRow < 0 || at.Len() < minRow {
-								minRow = at.Len()
+							if minRow < 0 || n < minRow {
+								minRow = n
 							}
 						}
 					}
@@ -2831,4 +2823,39 @@ func (c *e1ctx) ruleRowLiteral(s *e1.Site) (string, bool) {
 		return "", false
 	}
 	return fmt.Sprintf("R-rows: the table is built only by appending slice literals of at least %d elements (%d append(s)); the constant index %d is inside every row", minRow, nApp, k), true
+}
+
+// rowLiteralLen: the value is a slice literal of n elements, or the result of a library helper whose every return is
+// such a literal (the smallest n).
+func rowLiteralLen(p *load.Prog, v ssa.Value, depth int) (int64, bool) {
+	if rs, ok := v.(*ssa.Slice); ok && rs.Low == nil && rs.High == nil {
+		if ra, ok := rs.X.(*ssa.Alloc); ok {
+			if at, ok := ra.Type().(*types.Pointer).Elem().Underlying().(*types.Array); ok {
+				return at.Len(), true
+			}
+		}
+		return 0, false
+	}
+	if call, ok := v.(*ssa.Call); ok && depth < 2 {
+		h := call.Call.StaticCallee()
+		if h == nil || !p.InRepo(h) || len(h.Blocks) == 0 {
+			return 0, false
+		}
+		min := int64(-1)
+		for _, b := range h.Blocks {
+			ret, isRet := b.Instrs[len(b.Instrs)-1].(*ssa.Return)
+			if !isRet || len(ret.Results) != 1 {
+				continue
+			}
+			n, ok := rowLiteralLen(p, ret.Results[0], depth+1)
+			if !ok {
+				return 0, false
+			}
+			if min < 0 || n < min {
+				min = n
+			}
+		}
+		return min, min >= 0
+	}
+	return 0, false
 }
